@@ -271,6 +271,7 @@ RULES = [
     ("C06-R3", "row counter: single writer, after the filter, step 1", r3),
     ("C06-R4", "buffer selection, implicit limit, parse_limit", r4),
     ("X-BUFFER", "buffering predicates (ordered or aggregate) and recursive expression predicates [shared]", lambda ctx: __import__("extra").buffering_predicates(ctx)),
+    ("X-PHASES", "every clause of the query is parsed exactly once, in grammar order (a re-parsed LIMIT / ORDER BY overwrites the first) [shared]", lambda ctx: __import__("extra").parser_phases(ctx)),
 ]
 
 EXPLANATION = (
